@@ -94,6 +94,11 @@ func (ex *Exec) loadObj(o *Object, path []PathEl) Value {
 		if len(path) == 0 {
 			return &ArrayV{Elems: append([]Value(nil), o.Elems...)}
 		}
+		if len(o.Elems) == 0 && path[0].Idx != nil {
+			// an element of an empty array: the bounds obligation emitted before this access
+			// makes the path infeasible; a zero value of the element type stands in
+			return ex.loadPath(ex.zero(o.Typ), path[1:])
+		}
 		return ex.loadPath(&ArrayV{Elems: o.Elems}, path)
 	case OSym:
 		if len(path) != 1 || path[0].Idx == nil {
@@ -120,6 +125,9 @@ func (ex *Exec) storeObj(o *Object, path []PathEl, v Value, g *Term) {
 				o.Elems[i] = ex.merge(g, av.Elems[i], o.Elems[i])
 			}
 			return
+		}
+		if len(o.Elems) == 0 {
+			return // infeasible (see loadObj)
 		}
 		nv := ex.storePath(&ArrayV{Elems: o.Elems}, path, v, g).(*ArrayV)
 		o.Elems = nv.Elems
@@ -400,23 +408,33 @@ func (ex *Exec) copySlice(st *State, dst, src *SliceV, pos token.Pos) (*Term, bo
 		}
 		return ex.idxConst(c), true
 	}
-	bound := int64(-1)
-	upd := func(p *Ptr, off *Term) {
+	// the count is at most the physical size of the largest alternative on either side
+	// (accesses beyond a smaller alternative's size are infeasible there and are ignored)
+	side := func(p *Ptr, off *Term) int64 {
+		m := int64(-1)
 		for _, al := range p.Alts {
-			if al.Obj == nil || al.Obj.Kind != OVec || len(al.Path) != 0 {
+			if al.Obj == nil {
 				continue
+			}
+			if al.Obj.Kind != OVec || len(al.Path) != 0 {
+				return -1 // not a plain vector: no physical bound from this side
 			}
 			b := int64(len(al.Obj.Elems))
 			if o, ok := ex.termInt64(off); ok {
 				b -= o
 			}
-			if bound < 0 || b < bound {
-				bound = b
+			if b > m {
+				m = b
 			}
 		}
+		return m
 	}
-	upd(dstB, dst.Off)
-	upd(srcB, src.Off)
+	bound := int64(-1)
+	for _, b := range []int64{side(dstB, dst.Off), side(srcB, src.Off)} {
+		if b >= 0 && (bound < 0 || b < bound) {
+			bound = b
+		}
+	}
 	if _, hi := n.Bounds(); hi != nil && hi.IsInt64() && (bound < 0 || hi.Int64() < bound) {
 		bound = hi.Int64()
 	}
